@@ -314,6 +314,10 @@ def _discharge(ctx, F, m, site):
                 i = strip(idx)
                 if i[0] == "binop" and i[1] == "Rem" and fold(i[3]) is not None and 0 < fold(i[3]) <= n:
                     return True, "index is `x %% %d`, array length %d" % (fold(i[3]), n)
+                if i[0] == "binop" and i[1] == "BitAnd":
+                    ms = [fold(x) for x in (i[2], i[3]) if fold(x) is not None]
+                    if ms and 0 <= min(ms) < n:
+                        return True, "index is `x & %d`, array length %d" % (min(ms), n)
                 iv = fold(idx)
                 if iv is not None and 0 <= iv < n:
                     return True, "constant index %d < %d" % (iv, n)
